@@ -25,6 +25,21 @@ CLAIMED = {
                 "helpers. NRVO of `return slice;` is assumed (g++/clang always elide it).",
         "design": "4/C12",
     },
+    "C13": {
+        "rules": "R-OWN, R-CONST(type witnesses), R-WRITESET, R-ORDER, R-ATOMIC, R-MUSTCALL, R-NOWRAP, R-CURSOR",
+        "text": "Static analysis of slice creation and reader ownership: no reader class holds a pointer/reference to "
+                "another reader or to mutable storage, a slice owns a by-value copy of its wrapped stream and a copied "
+                "file reader reopens the file by name (independent positions by construction), archive member streams "
+                "are freshly made slices; compile-only witnesses show Slice(start,len) is callable on const parents "
+                "while the advancing form is rejected on them; the advancing form creates the (may-throw) slice before "
+                "it moves the parent; every slice constructor passes the containment check, whose arithmetic cannot "
+                "wrap, and nested / memory slices are constructed with exactly the guarded extent. Necessary structural "
+                "conditions of C13 for all arguments and interleavings; backend equivalence is not decided.",
+        "note": "Declined: observational equivalence of memory/file/slice backends; byte values. VolFile::OpenStream moves "
+                "the archive's own reader (seek to the block header) - invisible to clients because the returned slice "
+                "owns a new handle; recorded, not a violation.",
+        "design": "4/C13",
+    },
     "C14": {
         "rules": "R-CURSOR, R-NOWRAP, R-ATOMIC, R-NARROW, R-COUNT(copy loop), R-OPENMODE, R-SEQ(helper lengths)",
         "text": "Static analysis of the writer classes: the fixed-buffer writer's cursor invariant and wrap-free guards "
